@@ -18,6 +18,10 @@ Cases:
   {"k":"df","rows":V,"names":[..],"cols":[int|str..]|int|str,"limit":V?}   DataFrame(rows,schema).collect(cols, limit)
   {"k":"extract","data":V,"fields":V}              extract_dict_columns(data, fields)
   {"k":"width","arr":V} / {"k":"width_df","rows":V,"names":[..]}   calculate_data_width(...) as display.py calls it
+  {"k":"dfseq","backing":"list"|"tuple"|"deque"|"gen"|"iter","rows":V,"names":[..],"ops":[OP..]}
+        ONE DataFrame(rows=<the rows held in that kind of container>, schema=names), then the calls OP one after the other on it:
+        {"op":"collect","cols":..,"limit":V?} | {"op":"getitem","cols":..} | {"op":"rowcount"|"len"|"shape"} | {"op":"materialize"}
+        | {"op":"append","entry":V};  observation {"ok":{"steps":[per call: {"cells","shape"}|{"exc"}|{"count"}|{"none"}],"source":rows the caller's container holds afterwards}}
 Observation: {"ok": ...} | {"exc": class name} | {"died": wait status, "reproduced": bool}."""
 import itertools
 import json
@@ -35,7 +39,11 @@ LEVEL_TEXT = ("Machine-checked Coq theorems over an executable model of collect_
               "one bounds loop, 1-/2-/n-column paths with unchecked reads that yield UB outside the object): for every list of tuple rows, every index vector and "
               "limit the model returns IndexError exactly when an index is outside [0, width), otherwise the plain-Python definition wherever that is defined and UB "
               "exactly where a requested index lies beyond a row shorter than the first; hence equality with the definition and absence of UB for rectangular rows, "
-              "agreement of the three code paths on all inputs, and specifications of extract_dict_columns and calculate_data_width for all inputs. The model is tied "
+              "agreement of the three code paths on all inputs, and specifications of extract_dict_columns and calculate_data_width for all inputs. The caller DataFrame is "
+              "modelled as an object with state (rows still in the caller's tuple / deque / one-shot iterator, or materialised into a list; collect, df[...], rowcount, "
+              "materialize, append as a step function): for every container kind and every sequence of reading calls each call returns what it returns on the frame's "
+              "rows alone (history and backing independence), the rows after any history are the initial rows followed by the accepted appends, and a collect after any "
+              "reading history on rectangular rows is the plain definition. The model is tied "
               "to the shipped compiled .so by running the real helpers (and the callers DataFrame.collect / the display width call) in sacrificial processes on the "
               "exhaustive small scope and on random larger inputs and evaluating the model on the same inputs inside Coq; a literal property oracle and the observed "
               "exit status of every child supply replayable failing inputs.")
@@ -47,16 +55,22 @@ LEVEL_NOTE = ("Memory safety of the compiled object is observed (child exit stat
               "checked by the oracle and the exit status only. The .so cannot be rebuilt here (no Cython).")
 DESIGN_REF = "DESIGN.md section 8, C10"
 COQ_IMPORTS = "From Orso Require Import Model.C10."
-COQ_CHECKS = {"collect": "c10_collect_check", "df": "c10_df_check", "extract": "c10_extract_check", "width": "c10_width_check"}
-COQ_SHOW = {"collect": "c10_collect_show", "df": "c10_df_show", "extract": "c10_extract_show", "width": "c10_width_show"}
+COQ_CHECKS = {"collect": "c10_collect_check", "df": "c10_df_check", "extract": "c10_extract_check", "width": "c10_width_check",
+              "dfseq": "c10_dfseq_check"}
+COQ_SHOW = {"collect": "c10_collect_show", "df": "c10_df_show", "extract": "c10_extract_show", "width": "c10_width_show",
+            "dfseq": "c10_dfseq_show"}
 RULE = ("collect_cython: exhaustive over rectangular row lists up to 3x3 (distinct cell labels) x index vectors of length 0..3 over -2..width+1 x limits -2..rows+2 "
         "(quick: up to 2x2 in full, 3x3 with vectors of length <= 2), then random larger shapes with repeated indexes, all three column-count paths, mixed cell types, "
-        "ragged and non-tuple rows, DataFrame.collect with names/ints/limits, arbitrary dictionaries and field tuples (colliding keys 1/1.0/True, unhashable fields), "
+        "ragged and non-tuple rows, DataFrame.collect with names/ints/limits, sequences of calls on ONE DataFrame whose rows arrive in a list / tuple / deque / generator / iterator "
+        "(exhaustive: every sequence of 1..2 calls (thorough 1..3) from a palette of limited and unlimited collects, df[...], rowcount, materialize, append, followed by a "
+        "collect + rowcount probe; random: 1..6 calls on larger frames), arbitrary dictionaries and field tuples (colliding keys 1/1.0/True, unhashable fields), "
         "object/str/numeric/2-D arrays for calculate_data_width (incl. through DataFrame.collect as display.py calls it), and malformed arguments; a case is non-trivial "
         "when the helper returned at least one cell / field / a width above the floor, or raised for an out-of-range index; distinct by canonical JSON")
 TRUSTED = [
     "C10 model (coq/Model/C10.v): collect_cython transcribed from compiled.pyx:102-154 with PyTuple_GET_ITEM / PyList_GET_ITEM as reads that yield UB outside the object; "
     "extract_dict_columns as PyDict_GetItem-or-None; calculate_data_width as a running maximum from 4 over rendered lengths",
+    "DataFrame state model (Section Frame): self._rows as SEager (a list) / SLazy kind (the caller's tuple, deque or iterator), materialize-before-read, append = "
+    "self._rows.append where that attribute exists; the caller's own container after the calls is judged by the Python oracle only",
     "modelled, not verified: the generated C and CPython object layout; str() of cell values and dict key hashing/equality are supplied by the harness; argument conversion "
     "(memoryview dtype/ndim test, C int conversion of limit) is checked by oracle and exit status only",
     "the sacrificial-process harness: a death of the child is observed as its wait status; silent memory corruption that neither changes a result nor kills the child is invisible",
@@ -149,6 +163,69 @@ def _cells(r):
     return {"ok": {"shape": list(r.shape), "cells": [[canon(x) for x in col] for col in r]}}
 
 
+def _make_backing(kind, rows):
+    """The container the frame's rows are handed over in (rows is a list)."""
+    if kind == "list":
+        return rows
+    if kind == "tuple":
+        return tuple(rows)
+    if kind == "deque":
+        from collections import deque
+
+        return deque(rows)
+    if kind == "gen":
+        return (r for r in rows)
+    if kind == "iter":
+        return iter(rows)
+    raise KeyError(kind)
+
+
+def _run_step(df, names, op):
+    """One call of a dfseq case on the live DataFrame; the step's own observation."""
+    o = op["op"]
+    try:
+        if o in ("collect", "getitem"):
+            cols = op["cols"]
+            arg = list(cols) if isinstance(cols, list) else cols
+            if o == "collect":
+                kw = {"limit": build(op["limit"])} if "limit" in op else {}
+                r = df.collect(arg, **kw)
+            else:
+                r = df[arg]
+            _LEAK.append(r)
+        elif o == "rowcount":
+            return {"count": int(df.rowcount)}
+        elif o == "len":
+            return {"count": int(len(df))}
+        elif o == "shape":
+            sh = df.shape
+            return {"count": int(sh[0]), "ncols": int(sh[1])}
+        elif o == "materialize":
+            r = df.materialize()
+            return {"none": True} if r is None else {"value": type(r).__name__}
+        elif o == "append":
+            r = df.append(build(op["entry"]))
+            return {"none": True} if r is None else {"value": type(r).__name__}
+        else:
+            raise KeyError(o)
+    except KeyError:
+        raise
+    except BaseException as e:
+        return {"exc": type(e).__name__}
+    # a collect returned: was every read it made inside its row object?  (judged on the rows the frame holds NOW)
+    idx = [c if isinstance(c, int) else names.index(c) for c in (cols if isinstance(cols, list) else [cols])
+           if isinstance(c, int) or c in names]
+    held = getattr(df, "_rows", None)
+    if isinstance(held, list) and _unchecked(held, idx, r.shape[-1] if r.ndim else 0):
+        return {"returned_without_raising": True, "shape": list(r.shape)}
+    try:
+        if isinstance(cols, list):
+            return _cells(r)["ok"]
+        return {"shape": [1] + list(r.shape), "cells": [[canon(x) for x in r]]}
+    except BaseException as e:
+        return {"inspect_exc": type(e).__name__}
+
+
 def _run_case(case):
     """Phase 1: the call itself (a Python exception here is the helper's own).  Phase 2: only if the call returned and
     performed no unchecked read, the result is inspected."""
@@ -189,6 +266,26 @@ def _run_case(case):
             idx = [c if isinstance(c, int) else names.index(c) for c in (cols if isinstance(cols, list) else [cols])]
             if _unchecked(rows, idx, r.shape[-1]):
                 unchecked = list(r.shape)
+        elif k == "dfseq":
+            from orso.dataframe import DataFrame
+
+            rows = build(case["rows"])
+            src = _make_backing(case["backing"], rows)
+            names = list(case["names"])
+            df = DataFrame(rows=src, schema=list(names))
+            _LEAK.append((rows, src, df))
+            steps = []
+            for i, op in enumerate(case["ops"]):
+                st = _run_step(df, names, op)
+                if "returned_without_raising" in st:
+                    return dict(st, step=i)
+                if "inspect_exc" in st:
+                    return {"inspect_exc": st["inspect_exc"], "step": i}
+                steps.append(st)
+            source = None
+            if case["backing"] in ("list", "tuple", "deque"):  # what the caller's own container holds afterwards
+                source = [[canon(x) for x in row] if isinstance(row, tuple) else canon(row) for row in src]
+            return {"ok": {"steps": steps, "source": source}}
         elif k == "extract":
             r = compiled.extract_dict_columns(build(case["data"]), build(case["fields"]))
         elif k == "width":
@@ -470,6 +567,12 @@ def _mode(case):
         if v is not None and _walk(*v) in ("empty", "index", "ok") and all(_row_kind(r)[0] == "tuple" for r in v[0]):
             return "safe"
         return "iso"
+    if k == "dfseq":
+        w = len(case["names"])
+        rows = case["rows"]
+        ok = rows[0] == "l" and all(_row_kind(r) == ("tuple", w) for r in rows[1])
+        ok = ok and all(op["op"] != "append" or (op["entry"][0] in ("t", "l") and len(op["entry"][1]) == w) for op in case["ops"])
+        return "safe" if ok else "iso"
     if k == "extract":
         return "safe" if case["data"][0] == "d" and case["fields"][0] == "t" else "iso"
     if k == "width":
@@ -665,6 +768,8 @@ def oracle(case, obs):
         return None
     if k == "df":
         return _oracle_df(case, obs)
+    if k == "dfseq":
+        return _oracle_dfseq(case, obs)
     if k == "extract":
         data, fields = build(case["data"]), build(case["fields"])
         try:
@@ -754,6 +859,73 @@ def _oracle_df(case, obs):
     return None
 
 
+def _op_text(op):
+    o = op["op"]
+    if o == "collect":
+        lim = ""
+        if "limit" in op:
+            lim = ", limit=%s" % ("None" if op["limit"][0] == "n" else repr(build(op["limit"])))
+        return "collect(%r%s)" % (op["cols"], lim)
+    if o == "getitem":
+        return "df[%r]" % (op["cols"],)
+    if o == "append":
+        return "append(%r)" % (build(op["entry"]),)
+    return {"rowcount": "rowcount", "len": "len(df)", "shape": "shape", "materialize": "materialize()"}.get(o, o)
+
+
+def _oracle_dfseq(case, obs):
+    """One DataFrame, several calls.  The frame's rows are the rows it was built from, in order, followed by every entry
+    that an append accepted (returned None) - whatever container they arrived in and whatever was called before.  Each
+    collect / df[...] must be the plain definition over THOSE rows (the df oracle, literally), each row count their number."""
+    if "exc" in obs:
+        return "building the DataFrame from a %s of tuple rows raised %s" % (case["backing"], obs["exc"])
+    names = list(case["names"])
+    cur = list(case["rows"][1])
+    steps = obs["ok"]["steps"]
+    if len(steps) != len(case["ops"]):
+        return "harness: %d calls, %d step observations" % (len(case["ops"]), len(steps))
+    done = []
+    for i, (op, st) in enumerate(zip(case["ops"], steps)):
+        o = op["op"]
+        where = "call %d, %s, on ONE DataFrame built from a %s of %d rows%s: " % (
+            i + 1, _op_text(op), case["backing"], len(case["rows"][1]), (" after " + "; ".join(done)) if done else "")
+        if "value" in st:
+            return where + "returned a %s, None expected" % st["value"]
+        if o in ("collect", "getitem"):
+            sub = {"k": "df", "rows": ["l", list(cur)], "names": names, "cols": op["cols"]}
+            if o == "collect" and "limit" in op:
+                sub["limit"] = op["limit"]
+            sobs = {"exc": st["exc"]} if "exc" in st else {"ok": {"cells": st["cells"], "shape": st["shape"]}}
+            why = _oracle_df(sub, sobs)
+            if why is not None:
+                return where + "the frame's rows are now %s; %s" % ([[canon(build(x)) for x in r[1]] for r in cur], why)
+        elif o in ("rowcount", "len", "shape"):
+            if "exc" in st:
+                return where + "raised %s; the row count %d expected" % (st["exc"], len(cur))
+            if st.get("count") != len(cur):
+                return where + "the row count must be %d (the rows the frame was built from plus the accepted appends), got %s" % (len(cur), st.get("count"))
+            if o == "shape" and st.get("ncols") != len(names):
+                return where + "shape[1] must be the number of columns %d, got %s" % (len(names), st.get("ncols"))
+        elif o == "materialize":
+            if "exc" in st:
+                return where + "raised %s" % st["exc"]
+        elif o == "append":
+            if "none" in st:  # accepted: from now on the entry is the frame's last row (a refused append changes nothing)
+                cur.append(["t", list(op["entry"][1])])
+        else:
+            return "unknown call " + o
+        done.append(_op_text(op))
+    src = obs["ok"].get("source")
+    if src is not None:  # judged by this oracle only (the Coq model has no notion of the caller's container)
+        orig = [[canon(build(x)) for x in r[1]] for r in case["rows"][1]]
+        if src[:len(orig)] != orig:
+            return ("after %s the %s the caller handed over must still hold its %d rows first and in order: expected %s, it holds %s"
+                    % ("; ".join(done), case["backing"], len(orig), orig, src))
+        if case["backing"] == "tuple" and len(src) != len(orig):
+            return "the caller's tuple changed length"
+    return None
+
+
 # ----------------------------------------------------------------------------------------------
 # Coq literals
 def _coq_obs(obs, table):
@@ -813,6 +985,8 @@ def to_coq(case, obs):
         else:
             cl = L.opt(L.Z(case["limit"][1]))
         return ("df", "(%s, %s, %s, %s)" % (crows, ccols, cl, _coq_obs(obs, table)))
+    if k == "dfseq":
+        return _to_coq_dfseq(case, obs)
     if k == "extract":
         if "ok" not in obs or case["fields"][0] != "t" or case["data"][0] not in ("d", "n"):
             return None
@@ -845,6 +1019,68 @@ def to_coq(case, obs):
     return None
 
 
+_COQ_BACKING = {"list": "KList", "tuple": "KTuple", "deque": "KDeque", "gen": "KIter", "iter": "KIter"}
+
+
+def _to_coq_dfseq(case, obs):
+    """(backing, rows, ops, observed outputs) - None when a call is outside the model (argument conversion of the limit,
+    a column that is neither a name nor a C int) or the child did not survive (the oracle reports that)."""
+    if "ok" not in obs or case["rows"][0] != "l" or case["backing"] not in _COQ_BACKING:
+        return None
+    names = list(case["names"])
+    table = {}
+    crows = _coq_rows(case["rows"][1], table)
+    cops = []
+    for op in case["ops"]:
+        o = op["op"]
+        if o in ("collect", "getitem"):
+            cols = op["cols"] if isinstance(op["cols"], list) else [op["cols"]]
+            if not all(isinstance(c, str) or (type(c) is int and INT_MIN <= c <= INT_MAX) for c in cols):
+                return None
+            lim = op.get("limit", ["n"]) if o == "collect" else ["n"]
+            if lim[0] not in ("i", "n") or (lim[0] == "i" and lim[1] > INT_MAX):
+                return None
+            if any(isinstance(c, str) and c not in names for c in cols):
+                cops.append("OpCollectUnknown")  # tuple.index raises ValueError after the frame was materialised
+                continue
+            ccols = "(%s : list Z)" % L.lst(L.Z(names.index(c) if isinstance(c, str) else c) for c in cols)
+            if o == "getitem":
+                cops.append("(OpGetitem %s)" % ccols)
+            else:
+                cops.append("(OpCollect %s %s)" % (ccols, "(None : option Z)" if lim[0] == "n" else L.opt(L.Z(lim[1]))))
+        elif o in ("rowcount", "len", "shape"):
+            cops.append("OpRowcount")
+        elif o == "materialize":
+            cops.append("OpMaterialize")
+        elif o == "append":
+            e = op["entry"]
+            if e[0] not in ("t", "l", "T"):
+                return None
+            cops.append("(OpAppend (%s : list Z))" % L.lst(L.Z(table.setdefault(canon(build(x)), len(table))) for x in e[1]))
+        else:
+            return None
+    cobs = []
+    for op, st in zip(case["ops"], obs["ok"]["steps"]):
+        if "exc" in st:
+            if st["exc"] == "ValueError":
+                cobs.append("QValueError")
+            elif st["exc"] == "AttributeError":
+                cobs.append("QAttributeError")
+            elif op["op"] in ("collect", "getitem"):
+                cobs.append("(QCols %s)" % _coq_obs(st, table))
+            else:
+                cobs.append("QOtherExc")
+        elif "cells" in st:
+            cobs.append("(QCols %s)" % _coq_obs({"ok": st}, table))
+        elif "count" in st:
+            cobs.append("(QCount %s)" % L.Z(st["count"]))
+        elif "none" in st:
+            cobs.append("QNone")
+        else:
+            cobs.append("QOtherExc")
+    return ("dfseq", "(%s, %s, (%s : list (fop Z)), (%s : list fobs))" % (_COQ_BACKING[case["backing"]], crows, L.lst(cops), L.lst(cobs)))
+
+
 # ----------------------------------------------------------------------------------------------
 def nontrivial_key(case, obs):
     if "skipped" in obs:
@@ -859,6 +1095,8 @@ def nontrivial_key(case, obs):
         if k == "width" and o["value"] > 4:
             return json.dumps(case, sort_keys=True)
         if k == "width_df" and any(x > 4 for x in o["value"]):
+            return json.dumps(case, sort_keys=True)
+        if k == "dfseq" and any(any(st.get("cells") or []) for st in o["steps"]):
             return json.dumps(case, sort_keys=True)
         return None
     if "exc" in obs and k in ("collect", "df") and obs["exc"] == "IndexError":
@@ -898,6 +1136,25 @@ def classify(case, obs):
             yield "non-tuple-row-present"
         elif len({_row_kind(r)[1] for r in rows}) > 1:
             yield "ragged"
+    elif k == "dfseq":
+        yield "backing:" + case["backing"]
+        ops = [op["op"] for op in case["ops"]]
+        yield "calls=%s" % (len(ops) if len(ops) <= 4 else "5+")
+        seen_limited = False
+        lazy = case["backing"] != "list"
+        for op in case["ops"]:
+            if op["op"] in ("collect", "getitem") and seen_limited:
+                yield "read-after-limited-collect-on-lazy-frame"
+                break
+            if op["op"] == "collect" and lazy and op.get("limit", ["n"])[0] == "i" and op["limit"][1] >= 1:
+                seen_limited = True
+            lazy = lazy and op["op"] == "append"
+        if "append" in ops:
+            yield "has-append"
+        if "ok" in obs:
+            for st in obs["ok"]["steps"]:
+                if "exc" in st:
+                    yield "step-exc:" + st["exc"]
     elif k == "extract":
         if case["data"][0] != "d" or case["fields"][0] != "t":
             yield "malformed-argument"
@@ -920,8 +1177,42 @@ def _rect(r, w, tag="t"):
     return ["l", [[tag, [["i", 10 * j + c + 1] for c in range(w)]] for j in range(r)]]
 
 
+_BACKINGS = ["list", "tuple", "deque", "gen", "iter"]
+
+
+def _seq_palette(r):
+    """The calls the exhaustive dfseq enumeration draws from, for a frame of r rows x 2 columns named a, b."""
+    both = [1, 0]
+    ops = [{"op": "collect", "cols": both}]
+    for lim in sorted({0, 1, 2, r, r + 1}):
+        ops.append({"op": "collect", "cols": both, "limit": ["i", lim]})
+    ops += [{"op": "collect", "cols": "b", "limit": ["i", 1]}, {"op": "getitem", "cols": ["b"]}, {"op": "rowcount"},
+            {"op": "materialize"}, {"op": "append", "entry": None}]
+    return ops
+
+
+def _exhaustive_dfseq(tier):
+    """Every sequence of 1..2 (thorough: 1..3) calls from the palette, on a frame of 0..3 rows held in each kind of container,
+    each followed by the probe [collect both columns, rowcount] - so whatever a call did to the frame is seen."""
+    maxlen = 3 if tier == "thorough" else 2
+    probe = [{"op": "collect", "cols": [1, 0]}, {"op": "rowcount"}]
+    for r in range(0, 4):
+        pal = _seq_palette(r)
+        for backing in _BACKINGS:
+            for ln in range(1, maxlen + 1):
+                for seq in itertools.product(pal, repeat=ln):
+                    ops = []
+                    for pos, op in enumerate(seq):
+                        if op["op"] == "append":  # each appended row is distinct
+                            op = {"op": "append", "entry": ["t", [["i", 901 + 10 * pos], ["i", 902 + 10 * pos]]]}
+                        ops.append(op)
+                    yield {"k": "dfseq", "backing": backing, "rows": _rect(r, 2), "names": ["a", "b"], "ops": ops + probe}
+
+
 def exhaustive(tier):
     def it():
+        for c in _exhaustive_dfseq(tier):
+            yield c
         for r in range(0, 4):
             for w in (range(0, 4) if r else [0]):
                 full = tier == "thorough" or (r <= 2 and w <= 2)
@@ -936,6 +1227,9 @@ def exhaustive(tier):
     else:
         label = ("row lists up to 2x2 x index vectors of length 0..3 over -2..width+1 x limits -2..rows+2 in full; "
                  "shapes with 3 rows or 3 columns with index vectors of length 0..2 (the thorough tier enumerates the whole 3x3 scope)")
+    label += ("; DataFrame call sequences: frames of 0..3 rows x 2 columns held in a list / tuple / deque / generator / iterator x every sequence of 1..%d calls "
+              "from {collect both columns with limit absent, 0, 1, 2, rows, rows+1; collect('b', limit=1); df[['b']]; rowcount; materialize; append} "
+              "followed by the probe collect + rowcount" % (3 if tier == "thorough" else 2))
     return it(), label
 
 
@@ -1049,6 +1343,43 @@ def _rand_df(rng):
     return case
 
 
+def _rand_dfseq(rng):
+    """One frame in a random container, 1..6 calls on it."""
+    r = rng.choice([0, 1, 2, 3, 3, 5, 8])
+    w = rng.choice([1, 2, 3, 4])
+    names = ["c%d" % i for i in range(w)]
+    rows = _rand_rows(rng, r, w, distinct=rng.random() < 0.6)
+    ops = []
+    for pos in range(rng.randint(1, 6)):
+        q = rng.random()
+        if q < 0.45:
+            style = rng.random()
+            if style < 0.25:
+                cols = rng.choice([rng.randrange(w), names[rng.randrange(w)], names[rng.randrange(w)], -1, w, "nope"])
+            else:
+                cols = []
+                for _ in range(rng.choice([0, 1, 1, 2, 2, 3, 5])):
+                    c = rng.randrange(w)
+                    cols.append(c if rng.random() < 0.5 else names[c])
+                if cols and rng.random() < 0.12:
+                    cols[rng.randrange(len(cols))] = rng.choice([-1, w, w + 3, "nope"])
+            op = {"op": "collect", "cols": cols}
+            if rng.random() < 0.7:
+                op["limit"] = rng.choice([["n"], ["i", -1], ["i", -3], ["i", 0], ["i", 1], ["i", 1], ["i", 2], ["i", max(r - 1, 0)], ["i", r],
+                                          ["i", r + 1], ["i", r + 5], ["i", INT_MAX]])
+            ops.append(op)
+        elif q < 0.6:
+            c = rng.randrange(w)
+            ops.append({"op": "getitem", "cols": rng.choice([c, names[c], [names[c]], [c, rng.randrange(w)], list(range(w))])})
+        elif q < 0.75:
+            ops.append({"op": rng.choice(["rowcount", "len", "shape"])})
+        elif q < 0.85:
+            ops.append({"op": "materialize"})
+        else:
+            ops.append({"op": "append", "entry": [rng.choice(["t", "t", "l"]), [rng.choice([["i", 5000 + 10 * pos + c], ["s", "n%d%d" % (pos, c)], ["n"]]) for c in range(w)]]})
+    return {"k": "dfseq", "backing": rng.choice(_BACKINGS), "rows": ["l", rows], "names": names, "ops": ops}
+
+
 _KEYS = [["s", "a"], ["s", "b"], ["s", "A"], ["s", ""], ["s", " a"], ["s", "é"], ["i", 1], ["i", 0], ["f", (1.0).hex()], ["b", True],
          ["b", False], ["n"], ["t", [["i", 1], ["s", "x"]]], ["y", "61"], ["i", -1], ["i", -2], ["i", 2 ** 61 - 1], ["s", "field_9"]]
 
@@ -1158,6 +1489,8 @@ def generate(rng, tier):
     count = 1000 if tier == "quick" else 20000
     for i in range(count):
         yield _random_case(rng, i)
+        if i % 4 == 0:  # in addition to the streams above: call sequences on one DataFrame
+            yield _rand_dfseq(rng)
 
 
 def corpus():
@@ -1172,6 +1505,14 @@ def corpus():
         yield w                                                                                               # guarded; counted as skipped
     yield {"k": "df", "rows": ["l", [t12, ["t", [["i", 3], ["i", 4]]]]], "names": ["a", "b"], "cols": ["b", 0], "limit": ["i", 0]}
     yield {"k": "df", "rows": ["l", [t12]], "names": ["a", "b"], "cols": "b"}
+    t34, t56 = ["t", [["i", 3], ["i", 4]]], ["t", [["i", 5], ["i", 6]]]
+    for backing in ("tuple", "deque", "gen"):   # a limited collect on a frame that is not a list yet, then readers of the same frame
+        yield {"k": "dfseq", "backing": backing, "rows": ["l", [t12, t34, t56]], "names": ["a", "b"],
+               "ops": [{"op": "collect", "cols": ["b", 0], "limit": ["i", 1]}, {"op": "collect", "cols": ["b", 0]}, {"op": "getitem", "cols": "a"}, {"op": "rowcount"}]}
+    yield {"k": "dfseq", "backing": "tuple", "rows": ["l", [t12, t34]], "names": ["a", "b"],      # append refused while lazy, accepted once a list
+           "ops": [{"op": "append", "entry": ["t", [["i", 7], ["i", 8]]]}, {"op": "len"}, {"op": "append", "entry": ["l", [["i", 9], ["i", 10]]]}, {"op": "getitem", "cols": ["b"]}]}
+    yield {"k": "dfseq", "backing": "deque", "rows": ["l", [t12]], "names": ["a", "b"],
+           "ops": [{"op": "append", "entry": ["t", [["i", 7], ["i", 8]]]}, {"op": "collect", "cols": 0, "limit": ["i", 5]}, {"op": "shape"}]}
     yield {"k": "extract", "data": ["d", [[["i", 1], ["s", "one"]], [["s", "x"], ["n"]]]], "fields": ["t", [["f", (1.0).hex()], ["b", True], ["s", "x"], ["s", "y"]]]}
     yield {"k": "width", "arr": ["A", "object", [3], [["n"], ["s", "é" * 5], ["i", 123]]]}
     yield {"k": "width", "arr": ["A", "object", [2], [["s", "abcd"], ["n"]]]}
@@ -1183,8 +1524,10 @@ def search(rng):
     i = 0
     while True:
         i += 1
-        m = i % 6
-        if m in (0, 1):
+        m = i % 7
+        if m == 6:
+            yield _rand_dfseq(rng)
+        elif m in (0, 1):
             r, w = rng.randint(1, 3), rng.randint(0, 3)
             ncols = rng.randint(1, 4)
             cols = [rng.randint(-1, w) for _ in range(ncols)]
@@ -1218,6 +1561,25 @@ def shrink(case):
                             yield {"k": "seq", "cases": cs[:i] + cs[i + step:]}
         elif n == 1:
             yield cs[0]
+        return
+    if k == "dfseq":
+        ops = case["ops"]
+        for i in range(len(ops)):
+            if len(ops) > 1:
+                yield dict(case, ops=ops[:i] + ops[i + 1:])
+        rows = case["rows"][1]
+        for i in range(len(rows)):
+            yield dict(case, rows=["l", rows[:i] + rows[i + 1:]])
+        for i, op in enumerate(ops):
+            if "limit" in op:
+                o2 = dict(op)
+                del o2["limit"]
+                yield dict(case, ops=ops[:i] + [o2] + ops[i + 1:])
+            if op["op"] in ("collect", "getitem") and isinstance(op["cols"], list) and len(op["cols"]) > 1:
+                for j in range(len(op["cols"])):
+                    yield dict(case, ops=ops[:i] + [dict(op, cols=op["cols"][:j] + op["cols"][j + 1:])] + ops[i + 1:])
+        if case["backing"] != "list":
+            yield dict(case, backing="list")
         return
     if k in ("collect", "df") and case["rows"][0] == "l":
         rows = case["rows"][1]
